@@ -945,7 +945,11 @@ def run(ctx):
         'array names are ASCII without XML special characters (names are not escaped by write_to_vti)',
         'ScalarToFile signals hold real scalars or C-/F-contiguous arrays; complex values and other memory layouts are not generated',
         'the classification theorem needs: the total size c*nnodes of a point vector is not a multiple of nel (the literal quantifier '
-        '"counts not multiples of each other" is not sufficient: C20_classification_literal_refuted)']
+        '"counts not multiples of each other" is not sufficient: C20_classification_literal_refuted); the oracle treats sizes that fit '
+        'both kinds as undetermined',
+        'three defects of the code are reproduced by the faithful model (C20_block_total_size_refuted, C20_single_vector_block_refuted, '
+        'C20_log_single_entry_refuted); their witnesses are in corpus/C20 and are reported as NOTE lines until they are registered in '
+        'known_findings.json (then as KNOWN-FINDING)']
     ctx.trusted += [
         'oracles (Section variables / inputs of the executable model, validated per run): ndarray.astype(float32) per entry (contract: 4 bytes, '
         'value within half an ulp, checked in Coq by f32_close on every generated finite value), float.__format__ / int.__format__ of logged values, '
@@ -965,7 +969,7 @@ def run(ctx):
     checks, labels, jobs = [], [], []
     doms = good_domains(quick)
     runners = {'vti': run_vti, 'wvti': run_wvti, 'log': run_log}
-    n_vti, n_mal, n_wvti, n_log, n_logmal = (110, 30, 40, 90, 8) if quick else (700, 150, 250, 600, 30)
+    n_vti, n_mal, n_wvti, n_log, n_logmal = (90, 30, 30, 80, 8) if quick else (550, 120, 200, 500, 30)
     with Scratch() as sc:
         specs = load_corpus()
         ctx.count('corpus', len(specs))
